@@ -34,9 +34,23 @@ def build(repo, findings):
         it.resub(r'\bn\.parse\(\)', '%s(n)' % parser, 'R14', 'str::parse with the target type fixed by the context -> stub', count=None)
         it.sig(fn, ret='r', ensures=[C('C01 digits-that-do-not-fit-fail-the-alternative', 'true')])
         u.add(it)
+    # the I/O number of a redirection (brush-parser/src/parser/peg.rs rule io_number): digits that do not fit a descriptor number are no I/O number
+    pg = u.source('brush-parser/src/parser/peg.rs')
+    asrc = u.source('brush-parser/src/ast.rs')
+    asrc.require_text(r'pub type IoFd = i32;', 'ast::IoFd is i32')
+    fn = 'io_number_action'
+    io = pg.block_slice(r'^\s*locations_are_contiguous\(num_loc, redir_loc\)\]\) \{\??$', "fn io_number_action(w: &str) -> Result<i32, &'static str>", fn)
+    plain_io = not io.text.split('{', 1)[1].lstrip('\n').lstrip().startswith('?')
+    io.r1()
+    io.resub(r'\{\n\s*\?\s*\n', '{\n', 'R6', '`{?` marker of a fallible PEG action dropped (the block evaluates to a Result)', count=None)
+    if plain_io:
+        io.resub(r'\{\n((?:.|\n)*)\n\}$', r'{\n    Ok({\1})\n}', 'R6', 'a plain `{ e }` action wrapped as Ok(e)', flags=0)
+    io.resub(r'\bw\.parse\(\)', 'parse_i32(w)', 'R14', 'str::parse with the target type fixed by the context -> stub', count=None)
+    io.sig(fn, ret='r', ensures=[C('C01 digits-that-do-not-fit-a-descriptor-number-are-no-io-number', 'true')])
+    u.add(io)
     u.raw(FOOTER)
-    u.assume('external_body', 'str::parse::<usize> / ::<u32> are stubs with arbitrary results (overflow is an Err)')
+    u.assume('external_body', 'str::parse::<usize> / ::<u32> / ::<i32> are stubs with arbitrary results (overflow is an Err)')
     u.assume('assume_specification', 'Result::or (std documented behaviour)')
     u.assume('stub', 'the PEG rules around the four action blocks are NOT verified; other action blocks of the grammar are not looked at')
-    u.expected_min_fns = 4
+    u.expected_min_fns = 5
     return u
